@@ -71,6 +71,15 @@ CHECKS = {
          "printed an error (7 cases incl. #error, stray #endif, unterminated #if/comment, missing include = warning)."),
    note=TB + "Macro substitution itself is not modelled (covered by font byte equality only). Parser errors spanning two files (the 'previous marker' rule) are not exercised.",
    design="4/C18"),
+ "C20": dict(
+   technique="Lean 4 theorems on the quantisation in exact arithmetic + Lean checker comparing the decoded Glat v3 octabox records of real output with the glyf outlines of the input font, point by point",
+   text=("Proof: Grc.Octa.quant_bounds, min_bound_encloses, max_bound_encloses — for every fraction a/b in [0,1], q = min(floor(255a/b), 255) satisfies q/255 <= a/b < (q+1)/255 (or a = b), hence a stored "
+         "minimum is below, and a stored maximum plus one 1/255 step is above, every value they were computed from. Tie: the Lean driver decodes the octabox records of the output font and the outlines "
+         "(simple and composite glyphs, all glyf flag forms) of the input font and checks in exact integer arithmetic, for every outline point: inside the whole-glyph diagonal bounds; when sub-boxes "
+         "exist, in a cell marked occupied (cell rule trunc(4v - 0.001) as in the code) whose box and diagonal bounds enclose it within one quantisation step; outline-less glyphs carry empty data. "
+         "Fonts: rectangles, triangles, random polygons, vertices on cell borders, L shapes, two-contour and composite glyphs, complexFit on a random subset."),
+   note=TB + "'Outline point' = glyf control point; curve interiors are not examined. float32 rounding of the compiler is not modelled. Degenerate (zero-extent) boxes are skipped by the checker (counted).",
+   design="4/C20"),
  "C19": dict(
    technique="Lean 4 model theorems (temporary file always removed, debug files only on request, destination untouched before checks) + strace/snapshot correspondence over all scenarios and path spellings",
    text=("Proof: Grc.MainSM.tmp_removed, debug_only_if_requested, no_output_before_checks, failure_leaves_no_font over the stage-machine model. Tie: every scenario (success, each failure stage, five spellings "
